@@ -330,6 +330,13 @@ fn osc(rng: &mut Rng, flavor: Flavor, out: &mut Vec<u8>) {
         }
         payload_text(rng, flavor, out, 6);
     }
+    // now and then a payload beyond the parser's buffer limits (1 KiB OSC buffer, 16 parameters)
+    if rng.chance(1, 50) {
+        let n = *rng.pick(&[1000usize, 1023, 1024, 1025, 1100, 2100]);
+        for _ in 0..n {
+            out.push(b'a' + rng.below(26) as u8);
+        }
+    }
     string_terminator(rng, out, true);
 }
 
